@@ -455,6 +455,9 @@ def monitor_residue(sess, extra):
             r.inconclusive.append("%s: %s" % (op.id, op.outcome()))
             continue
         r.counts["evaluations"] += 1
+        # sightings inside the context's own freed block are not this monitor's business (dead bytes carried along by
+        # moves; the object scans and the allocator monitor decide with the liveness probe which of them matter)
+        r.counts["stale_sightings_inside_own_freed_block"] += int(op.ret.get("own_block", "0"))
         before = dict(x.split(":", 1) for x in op.ret["before"].split(","))
         after = dict(x.split(":", 1) for x in op.ret["after"].split(","))
         for name, where in before.items():
